@@ -208,7 +208,7 @@ let () =
   (* a section whose state has been corrupted (e.g. by the overlapping erase of the known
      finding) can decode astronomically large object counts: bound the time per section and
      print the observations of the longest prefix that completes *)
-  let limit = try float_of_string (Sys.getenv "MODEL_SECTION_LIMIT") with Not_found -> 20.0 in
+  let limit = try float_of_string (Sys.getenv "MODEL_SECTION_LIMIT") with Not_found -> 6.0 in
   let timed f =
     let old = Sys.signal Sys.sigalrm (Sys.Signal_handle (fun _ -> raise Timeout)) in
     ignore (Unix.setitimer Unix.ITIMER_REAL { Unix.it_interval = 0.0; Unix.it_value = limit });
@@ -223,8 +223,18 @@ let () =
        match timed (fun () -> run !k l ops) with
        | Some obs -> List.iter print_obs obs
        | None ->
-           (* longest prefix that completes within the limit *)
-           let lo = ref 0 and hi = ref (List.length ops) and best = ref [] in
+           (* longest prefix that completes within the limit: usually only the last one or
+              two operations run on the corrupted state, so try those prefixes first *)
+           let n = List.length ops in
+           let lo = ref 0 and hi = ref n and best = ref [] in
+           (try
+              for d = 1 to 3 do
+                if n - d > 0 && !lo = 0 then
+                  (match timed (fun () -> run !k l (take_n (n - d) ops)) with
+                   | Some obs -> lo := n - d; best := obs; hi := n - d + 1; raise Exit
+                   | None -> hi := n - d)
+              done
+            with Exit -> ());
            while !hi - !lo > 1 do
              let mid = (!lo + !hi) / 2 in
              (match timed (fun () -> run !k l (take_n mid ops)) with
